@@ -794,7 +794,6 @@ func isWildcardTest(bo *ssa.BinOp) bool {
 	return false
 }
 
-
 // ruleValueRemovalKeepsChildren implements C19-R5.
 func (c *Ctx) ruleValueRemovalKeepsChildren(id string) {
 	ru := c.R.Rule(id, "the trie code clears a node's value by assigning its payload field only: it never overwrites a whole node (no *n = Node{…}, no call of the generated Reset) — that would drop the node's children, i.e. every longer key stored below the one removed", "E11 who-may-call / shape rule on the hand-written Node methods (positive control: payload stores counted)", 2)
